@@ -4,7 +4,7 @@ import os
 
 from .. import bits as B
 from .. import rx
-from ..model import AnalysisError, attr_chain, call_name, stmts_in
+from ..model import AnalysisError, attr_chain, call_name, if_chain, stmts_in
 from ..report import VERIF
 
 EXPLANATION = (
@@ -65,6 +65,7 @@ def run(ctx):
     layout(ctx)
     hsl_writeset(ctx)
     hsl_percent_range(ctx)
+    hue_formula(ctx)
     converters(ctx)
     hue_units(ctx)
     clamps(ctx)
@@ -830,6 +831,71 @@ def clamps(ctx):
 
 def _values_hook(alg, node):
     return None
+
+
+def hue_formula(ctx):
+    """The hue getter: with M the largest channel and D = max - min, the hue in turns is (g - b)/6D when red is largest,
+    1/3 + (b - r)/6D when green is, 2/3 + (r - g)/6D when blue is.  The branch formulas are compared symbolically (min and max
+    opaque); the setters of hue, saturation and lightness read the colour back through this getter, so a wrong branch also
+    corrupts what they write."""
+    from ..algebra import Alg, Uninterpreted, atom, const
+    from fractions import Fraction
+
+    fn = ctx.m.cls("Color", "R13.6").getters.get("hue")
+    ctx.need(fn is not None, "R13.6", "Color.hue getter not found")
+
+    def hook(alg, node):
+        if isinstance(node, ast.Call) and isinstance(node.func, ast.Name) and node.func.id in ("min", "max") and len(node.args) == 3:
+            return atom(node.func.id.upper())
+        return None
+
+    alg = Alg(call_hook=hook)
+    R, G, B = atom("R"), atom("G"), atom("B")
+    alg.atom_map["self.red"] = const(255) * R
+    alg.atom_map["self.green"] = const(255) * G
+    alg.atom_map["self.blue"] = const(255) * B
+    D = atom("MAX") - atom("MIN")
+    chan = {}
+    branches = []
+    for st in fn.body:
+        if isinstance(st, ast.Assign):
+            try:
+                alg.assign(st)
+                v = alg.ev(st.targets[0]) if isinstance(st.targets[0], ast.Name) else None
+                for nm, a in (("r", R), ("g", G), ("b", B)):
+                    if v is not None and v == a:
+                        chan[st.targets[0].id] = nm
+            except Uninterpreted:
+                pass
+        elif isinstance(st, ast.If) and any(isinstance(x, ast.Assign) for x in st.body) and any(isinstance(c, ast.Compare) and isinstance(c.ops[0], ast.Eq) for c in ast.walk(st.test)):
+            seen = []
+            for test, body in if_chain(st):
+                which = None
+                if test is not None and isinstance(test, ast.Compare) and len(test.ops) == 1 and isinstance(test.ops[0], ast.Eq):
+                    for side, other in ((test.left, test.comparators[0]), (test.comparators[0], test.left)):
+                        try:
+                            if isinstance(side, ast.Name) and side.id in chan and alg.ev(other) == atom("MAX"):
+                                which = chan[side.id]
+                        except Uninterpreted:
+                            pass
+                elif test is None:
+                    rest = [c for c in "rgb" if c not in seen]
+                    which = rest[0] if len(rest) == 1 else None
+                if which is None or not body or not isinstance(body[-1], ast.Assign):
+                    continue
+                seen.append(which)
+                branches.append((which, body[-1]))
+            if len(branches) == 3:
+                break
+    ctx.need(len(branches) == 3, "R13.6", "Color.hue getter: the three dominant-channel branches were not recognised (%d)" % len(branches))
+    want = {"r": (G - B) / (const(6) * D), "g": const(Fraction(1, 3)) + (B - R) / (const(6) * D), "b": const(Fraction(2, 3)) + (R - G) / (const(6) * D)}
+    for which, asg in branches:
+        try:
+            got = alg.ev(asg.value)
+        except Uninterpreted as e:
+            raise AnalysisError("R13.6", "Color.hue getter: branch formula not interpreted (%s)" % e)
+        ctx.ob("R13.6", "Color.hue:getter[%s largest]" % {"r": "red", "g": "green", "b": "blue"}[which], got == want[which], "%s vs %s" % (got, want[which]), asg.lineno,
+               "hue of a colour whose largest channel is this one: the offset is 0, 1/3, 2/3 turn plus (next - previous channel)/6D; swapped operands mirror the hue about the sector centre")
 
 
 def hsl_percent_range(ctx):
